@@ -53,13 +53,16 @@ pub struct Case {
     pub ops: Vec<Op>,
 }
 
-fn small_pay() -> impl Strategy<Value = Pay> {
+fn small_pay() -> BoxedStrategy<Pay> {
+    let inner = (|| {
     prop_oneof![
         3 => vec(any::<u8>(), 0..40).prop_map(|v| Pay::Bytes(Hex(v))),
         1 => (0usize..=1400, any::<u8>()).prop_map(|(n, b)| Pay::Bytes(Hex(vec![b; n]))),
         3 => app_req().prop_map(Pay::App),
         2 => (app_req(), any::<u16>()).prop_map(|(a, t)| Pay::Mutated(a, vec![BMut::Trunc(t)])),
     ]
+})();
+    inner.boxed()
 }
 
 fn ack_mode(good: u32) -> impl Strategy<Value = AckMode> {
@@ -75,7 +78,8 @@ fn ack_mode(good: u32) -> impl Strategy<Value = AckMode> {
     ]
 }
 
-pub fn op(good: u32, noise: u32, syn: u32) -> impl Strategy<Value = Op> {
+pub fn op(good: u32, noise: u32, syn: u32) -> BoxedStrategy<Op> {
+    let inner = (|| {
     let extra = prop_oneof![6 => Just(0u16), 1 => prop::sample::select(vec![F_URG, F_FIN, F_SYN, F_RST, F_ECE, F_CWR, F_NS]), 1 => (0u16..512).prop_map(|f| f & !(F_PSH | F_ACK))];
     prop_oneof![
         syn => (0u8..5, (0u16..512), any::<u32>(), prop::option::weighted(0.4, small_pay())).prop_map(|(f, fl, seq, pay)| Op::Syn { f, flags: (fl | F_SYN) & !F_ACK, seq, pay }),
@@ -88,6 +92,8 @@ pub fn op(good: u32, noise: u32, syn: u32) -> impl Strategy<Value = Op> {
         1 => (0u8..4, icmp_err_type(), prop_oneof![3 => 0u8..6, 1 => any::<u8>()]).prop_map(|(f, (typ4, typ6), code)| Op::IcmpErr { f, typ4, typ6, code }),
         noise => step_noise().prop_map(Op::Noise),
     ]
+})();
+    inner.boxed()
 }
 
 pub fn case_strategy(maxops: usize, good: u32, noise: u32, syn: u32) -> impl Strategy<Value = Case> {
@@ -460,7 +466,7 @@ impl Prop for C07 {
         "stateful, model-based: 2..4 flows that differ in exactly one tuple component (source port, source address, destination port), cookies learned from the responder's SYN-ACKs; histories of 1..24 ops: SYN with any flag set, data segments (PSH|ACK plus optional URG/FIN/SYN/RST/ECE/CWR/NS) with ack in {cookie+1, cookie, cookie+2, 0, 2^32-1, random, another flow's cookie+1, near misses cookie+1±d for d in 1..16 / 17..4096 / 4097..70000}, seq continuing / within 2 KiB of the wrap / random, payload 0..1400 bytes (garbage, protocol requests, request prefixes), TCP options; bare FIN|ACK, ACK, RST; bare ACK / RST / FIN|ACK whose ack is cookie-related (the handshake-completing ACK), SYNs carrying payload, unrelated noise (ARP/ICMP incl. ICMP errors quoting the responder's packets/UDP/raw/lying headers). Reference model: validated set; unvalidated flow and ack != cookie+1 => silence; otherwise exactly one reply with flags ACK (+PSH iff payload), seq = peer ack, ack = peer seq + payload length mod 2^32; FIN|ACK -> FIN|ACK ack seq+1; bare ACK/RST -> silence. Directed: a tuple whose cookie is 0xFFFFFFFF (ack = 0 branch), committed for quick and re-validated against the SYN-ACK, searched over 2^32 tuples in thorough. Non-trivial = the history holds both a rejected data segment on an unvalidated flow and an accepted one; distinct by case hash."
     }
     fn run(&self, ctx: &mut RunCtx) {
-        let n = ctx.share(ctx.tier.n(300_000, 5_000_000));
+        let n = ctx.share(ctx.tier.n(1_000_000, 10_000_000));
         let mode = Mode { check_replies: true, check_table: false };
         ctx.run_generated("model", n, case_strategy(24, 4, 2, 1), |c, st| run_case(c, st, &mode));
         // directed underflow branch
@@ -587,7 +593,7 @@ impl Prop for C09 {
         "stateful: histories of 1..200 ops over 2..4 flows — SYN with all flag sets, data segments with wrong acknowledgement numbers (cookie, cookie+2, 0, 2^32-1, random, another flow's cookie+1, near misses cookie+1±d up to 70000), bare FIN|ACK / ACK / RST, UDP / ICMP / ARP / raw / lying-header noise, interleaved with a few valid data segments and repeated valid data on validated flows — plus floods of 10^4 (quick) / 10^5 (thorough) unvalidated frames from pseudo-random tuples next to one validated flow, and crowds of 70 000 (quick) / 200 000 (thorough) VALIDATED flows (table size = number of distinct cookies, checked every 4096 flows and around 65536). Oracle: after EVERY frame the size of the connection table (hook verif_tcb_len) equals the number of flows that have sent a data segment acknowledging cookie+1 according to the reference model. Non-trivial = at least 20 unvalidated frames and at least one validated flow in the history; distinct by case hash."
     }
     fn run(&self, ctx: &mut RunCtx) {
-        let n = ctx.share(ctx.tier.n(40_000, 600_000));
+        let n = ctx.share(ctx.tier.n(150_000, 1_200_000));
         let mode = Mode { check_replies: false, check_table: true };
         ctx.run_generated("table", n, case_strategy(200, 1, 4, 3), |c, st| run_case(c, st, &mode));
         let nf = ctx.share(ctx.tier.n(32, 160));
